@@ -8,6 +8,7 @@
 """
 import collections
 import pickle
+import random
 
 from vlib import common, refmodel
 
@@ -89,7 +90,7 @@ def check_redup(ns, res, exprs, shapes, origin):
     if after_nested != before_nested:
         res.violation('reduplicate-changes-tokens',
                       'reduplicate changed the rendered tokens', witness)
-        return
+        return None
     after = id_counts(out)
     rep = [i for i, v in after.items() if v > 1]
     if rep:
@@ -148,6 +149,89 @@ def check_redup(ns, res, exprs, shapes, origin):
                 break
         elif not isinstance(n.data, str):
             stack.extend(n.data)
+    return out
+
+
+def rebuild(ns, node, path, new):
+    """A copy of ``node`` in which the descendant at ``path`` is ``new``:
+    new nodes along the path, all other subtrees are the same objects (what
+    nodes.substitute does)."""
+    if not path:
+        return new
+    kids = list(node.data)
+    kids[path[0]] = rebuild(ns, kids[path[0]], path[1:], new)
+    return ns.Node(*kids) if kids else ns.Node()
+
+
+def paths_of(node, prefix=()):
+    out = [prefix]
+    if not isinstance(node.data, str):
+        for i, c in enumerate(node.data):
+            out += paths_of(c, prefix + (i, ))
+    return out
+
+
+def at(node, path):
+    for i in path:
+        node = node.data[i]
+    return node
+
+
+def history(ns, res, r, origin):
+    """reduplicate as a run uses it: called again and again in one process,
+    each time on the previous result with one command rebuilt - most
+    commands are the *same objects* as in the previous call.  The dangerous
+    step puts a subtree of an untouched command into another command
+    (inlining a defined function, substituting a variable by a term)."""
+    def fresh_tree(depth, bud):
+        if depth <= 0 or bud[0] <= 0 or r.random() < 0.3:
+            return ns.Node(r.choice(ALPHA))
+        k = min(r.choice([1, 2, 2, 3]), bud[0])
+        bud[0] -= k
+        return ns.Node(*[fresh_tree(depth - 1, bud) for _ in range(k)])
+
+    cur = [fresh_tree(r.randint(1, 4), [r.choice([6, 15])])
+           for _ in range(r.randint(2, 6))]
+    trail = []
+    for step in range(r.randint(2, 7)):
+        kind = r.choice(['across', 'across', 'across', 'inside', 'erase',
+                         'leaf', 'toplevel'])
+        if len(cur) < 2 and kind in ('across', 'erase', 'toplevel'):
+            kind = 'leaf'
+        nxt = list(cur)
+        shapes = {f'history-{kind}'}
+        if kind == 'across':
+            i, j = r.sample(range(len(cur)), 2)
+            src = at(cur[i], r.choice(paths_of(cur[i])))
+            nxt[j] = rebuild(ns, cur[j], r.choice(paths_of(cur[j])), src)
+        elif kind == 'inside':
+            j = r.randrange(len(cur))
+            ps = paths_of(cur[j])
+            src = at(cur[j], r.choice(ps))
+            dst = r.choice(ps)
+            # not into its own subtree (a tree cannot contain itself)
+            srcp = [p for p in ps if at(cur[j], p) is src][0]
+            if dst[:len(srcp)] == srcp:
+                dst = ()
+                src = ns.Node(src, src) if r.random() < 0.5 else src
+            nxt[j] = rebuild(ns, cur[j], dst, src)
+        elif kind == 'erase':
+            del nxt[r.randrange(len(nxt))]
+        elif kind == 'toplevel':
+            i, j = r.sample(range(len(cur)), 2)
+            nxt[j] = cur[i]
+        else:
+            j = r.randrange(len(cur))
+            nxt[j] = rebuild(ns, cur[j], r.choice(paths_of(cur[j])),
+                             ns.Node(r.choice(ALPHA)))
+        trail.append(kind)
+        nviol = len(res.violations)
+        res.count('history_steps')
+        out = check_redup(ns, res, nxt, shapes,
+                          f'{origin}:step{step}:{"+".join(trail)}')
+        if len(res.violations) > nviol or out is None:
+            return
+        cur = out
 
 
 def shard(args):
@@ -155,6 +239,10 @@ def shard(args):
     ns = dd.load()
     res = common.ShardResult()
     r = common.rng('c13', args['shard'])
+    for i in range(args['n'] // 8):
+        # own generator per history, so that one can be replayed
+        hs = r.getrandbits(48)
+        history(ns, res, random.Random(hs), f'history:{hs}')
     for i in range(args['n']):
         exprs, shapes = gen_dag(ns, r)
         check_redup(ns, res, exprs, shapes, f'{args["shard"]}:{i}')
@@ -185,14 +273,18 @@ def run(ctx):
         'API part: random DAGs of Nodes (shared leaves, shared subtrees, '
         'shared empty lists, sharing across top-level entries, distinct '
         'objects carrying equal ids as produced by unpickling) handed to '
-        'nodes.reduplicate; distinct non-trivial = distinct (structure, id '
+        'nodes.reduplicate; histories of calls in one process (each input '
+        'is the previous result with one command rebuilt: a subtree of an '
+        'untouched command inserted into another one, sharing inside one '
+        'command, a repeated command, erasure, a new leaf); distinct non-trivial = distinct (structure, id '
         'multiplicity profile)' +
         ('; real-run part: id-uniqueness hook at every TaskGenerator / '
          'Producer construction' if c13_real else ''))
     if ctx.counters.get('dags_with_repeated_ids', 0) == 0:
         ctx.inconclusive_because('no DAG with repeated ids was generated')
     for s in ('shared-leaf', 'shared-subtree', 'shared-empty-list',
-              'shared-toplevel-entry', 'same-ids-different-objects'):
+              'shared-toplevel-entry', 'same-ids-different-objects',
+              'history-across', 'history-inside', 'history-toplevel'):
         if s not in ctx.extra.get('sharing_shapes', ()):
             ctx.inconclusive_because(f'sharing shape {s} never generated')
 
@@ -203,6 +295,10 @@ def replay(data):
     res = common.ShardResult()
     for c in data['cases']:
         w = c['witness']
+        if str(w.get('origin', '')).startswith('history:'):
+            hs = int(w['origin'].split(':')[1])
+            history(ns, res, random.Random(hs), f'history:{hs}')
+            continue
         # rebuild with maximal sharing of equal subtrees
         memo = {}
 
